@@ -411,6 +411,7 @@ func c19Races(p *load.Prog, r *oblig.Run, g *cg.Graph) {
 
 // c19Errors: error discipline on the publish path.
 func c19Errors(p *load.Prog, r *oblig.Run, g *cg.Graph) {
+	c19LetterRange(p, r)
 	r.Rule("R19.f", "a failing file writer is reported: write errors on the publish path are propagated, stored into the returned error, or panicked with - never dropped; the worker loop ends on the first error", 4)
 	var roots []cg.Target
 	for _, n := range []string{"Publish"} {
@@ -510,6 +511,7 @@ func c19Errors(p *load.Prog, r *oblig.Run, g *cg.Graph) {
 	if pub != nil {
 		o := r.Add("R19.f", "worker loop of Publisher.Publish", p.Pos(pub.Pos()), "the worker stops at the first failed file and Publish returns the error")
 		ok := false
+		overwrite := ""
 		for _, an := range pub.AnonFuncs {
 			for _, c := range su.Calls(an) {
 				if c.Common().IsInvoke() && c.Common().Method.Name() == "WriteFile" {
@@ -532,13 +534,23 @@ func c19Errors(p *load.Prog, r *oblig.Run, g *cg.Graph) {
 							if !su.ReachableBlocks(errSide)[c.Block()] {
 								ok = true
 							}
+							// the shared result is only ever overwritten with a failure
+							for _, r3 := range *v.Referrers() {
+								if st, isSt := r3.(*ssa.Store); isSt && st.Val == v {
+									if !(len(errSide.Preds) == 1 && errSide.Dominates(st.Block())) {
+										overwrite = p.Pos(st.Pos())
+									}
+								}
+							}
 						}
 					}
 				}
 			}
 		}
 		// the captured err is a named result of Publish
-		if ok {
+		if overwrite != "" {
+			o.Fail("the result of WriteFile is stored into the shared error at " + overwrite + " whether or not it is an error: a worker that writes its next file successfully overwrites the failure another worker recorded, and Publish returns nil although a file was not written")
+		} else if ok {
 			o.OK("the error branch leaves the loop; the error is the named result")
 		} else {
 			o.Fail("after a failed WriteFile the worker keeps taking files (or the error never leaves the worker): publishing does not stop at the first failure")
